@@ -1,4 +1,5 @@
 import LivesimVerif.Model.Patch
+import LivesimVerif.Lemmas.Trans
 import LivesimVerif.Lemmas.Myers
 /-!
 # C11 — Applying a served MPD patch to the old MPD yields the new MPD
@@ -156,5 +157,9 @@ example : Myers.myers ([] : List Nat) [5, 6] = some [.ins 0 0, .ins 0 1] := by d
 example : validB [1, 2, 3, 4] [2, 3, 4, 5] [.del 0, .ins 4 3] 0 0 = true := by decide
 example : (leafOps [2, 3, 4, 5] [.del 0, .ins 4 3] 0 0) = some [.remove 0, .addAfter 2 5] := by decide
 example : applyOps [.remove 0, .addAfter 2 5] [1, 2, 3, 4] = some [2, 3, 4, 5] := by decide
+
+/-- **tie by translation**: the `pyMod` of the Myers model is the Go function, translated statement by statement from
+the current source (`Gen/Trans.lean`, regenerated on every run) -/
+theorem c11_trans_pyMod (x y : Int) : Gen.Trans.pyMod x y = Myers.pyMod x y := TransTie.pyMod_eq x y
 
 end Patch
